@@ -761,6 +761,9 @@ func runC04(r *rep.Report, thorough bool) error {
 				switch {
 				case !inFrag:
 					r.Hist("end-to-end-theorem:program-outside-the-fragment")
+					for _, wy := range strsOf(frag["why"]) {
+						r.Hist("end-to-end-theorem:outside-because:" + wy)
+					}
 				case !colOK || !ht:
 					r.Hist("end-to-end-theorem:column-or-value-not-covered")
 				default:
@@ -806,7 +809,15 @@ func runC04(r *rep.Report, thorough bool) error {
 				}
 				if pe := strsOf(rr["parseErrors"]); len(pe) > 0 {
 					r.Hist("real-script:outside-the-parsed-fragment")
-					if !astReported[ln.Case+"/parse"] {
+					// float / bool backed enums (a recorded finding: their comparison is a type error in
+					// PostgreSQL) are outside the embedded fragment
+					oddEnum := false
+					for _, ed := range a.Env.Decls {
+						if ed.Kind == "enum" && (ed.EnumBK == "float" || ed.EnumBK == "bool") {
+							oddEnum = true
+						}
+					}
+					if !astReported[ln.Case+"/parse"] && !oddEnum {
 						astReported[ln.Case+"/parse"] = true
 						r.Disagree(rep.Disagreement{Tie: "c04.real-validator-parses", Input: map[string]any{"case": ln.Case, "sources": a.Case.Sources()},
 							Model: "every generated validator is in the plpgsql fragment of PgAst (six templates)", Impl: strings.Join(pe, " | ")})
